@@ -108,6 +108,8 @@ def gen_cases(rng: random.Random, reps: int):
                     c["args"]["compress"] = rng.choice([0, 9])
                 c["jpeg"] = rng.choice([None, None, 0, 50, 95])
                 c["rff"] = rng.choice([None, None, True, False])
+            if c["style"] != "block" and rng.random() < 0.15:
+                c["forced"] = True  # forced support on a terminal that does support the style
             plain = not c["args"] and c["alpha"] == 40 / 255 and not c["method"]
             if "blend" in c["args"]:
                 c["via"] = "renderer"
